@@ -200,6 +200,36 @@ func c04MySQL(t *testing.T, plan *kernel.Plan, keepLog bool) *kernel.Result {
 			w.Res.Fired["token-store-io-error"]++
 			keyFault = true
 		}
+		if plan.Sw("longdata") == 1 && plan.Sw("rawmy") == 1 {
+			// parameters sent with COM_STMT_SEND_LONG_DATA: the packets are judged one by one
+			longSeen := false
+			if pkts, perr := splitMyPackets(run.ToDB.Log); perr == nil {
+				for _, p := range pkts {
+					if p.seq != 0 || len(p.payload) < 7 || p.payload[0] != 0x18 {
+						continue
+					}
+					longSeen = true
+					for _, m := range protectedMarks {
+						// the value travels in two pieces: either half of a protected value in clear is a leak
+						if len(m) >= 8 && (bytes.Contains(p.payload[7:], m[:len(m)/2]) || bytes.Contains(p.payload[7:], m[len(m)/2:])) && len(p.payload) > 7 {
+							w.Violate("C04", "no-plaintext-to-database", "mysql/long-data-parameter", fmt.Sprintf("a COM_STMT_SEND_LONG_DATA packet forwarded to the database carries a piece of protected value %q in clear", m))
+							break
+						}
+					}
+				}
+			}
+			if longSeen {
+				w.Probe("long-data-session")
+				if run.Stuck || run.ClientErr != "" {
+					w.Violate("C04", "session-makes-progress", "mysql/long-data-parameter", fmt.Sprintf("client error %q; proxy errors %v", run.ClientErr, run.ProxyErrs))
+				}
+				// (known finding: the proxy does not understand long data; what it does with the other
+				// parameters of such an execution is not judged further)
+				w.State(fmt.Sprintf("mysql cols=%v rows=%d longdata", len(cols), len(rows)))
+				w.Res.SimNanos = int64(time.Since(start))
+				return
+			}
+		}
 		if (run.Stuck || run.ClientErr != "") && !keyFault {
 			w.Violate("C04", "session-makes-progress", "mysql", fmt.Sprintf("stuck=%v after %d deliveries; client error %q; proxy errors %v", run.Stuck, run.Steps, run.ClientErr, run.ProxyErrs))
 			return
